@@ -37,7 +37,7 @@ COMMENT_EXCL = '"#\\'
 def doc(ctx, opts):
     """-> (text, expected) ; opts selects the layout family and where the symbolic characters go"""
     o = dict(nsym=2, form='bare', ws=' ', nl='\n', arr='[]', comment=None, cont=None, case=None, interleave=0, blank_lines=False,
-             charlen='8', sub_names=False, value_sym=0, names=None, typedef_case=False, enumlayout=None)
+             charlen='8', sub_names=False, value_sym=0, names=None, typedef_case=False, enumlayout=None, arrpad='', zero_rows=False)
     o.update(opts)
 
     def choice(name, options):
@@ -49,7 +49,10 @@ def doc(ctx, opts):
         o['ws'] = choice('ws', [' ', '\t', ' \t '])
     if o['arr'] == 'sym':
         o['arr'] = choice('arr', ['[]', '<>'])
-    ws, nl = o['ws'], o['nl']
+    if o['arrpad'] == 'sym':
+        # blanks or tabs between the braces of an array cell and its first / last element
+        o['arrpad'] = choice('arrpad', ['', ' ', '\t', '  '])
+    ws, nl, pad = o['ws'], o['nl'], o['arrpad']
     lb, rb = ('[', ']') if o['arr'] == '[]' else ('<', '>')
     excl = {'bare': BARE_EXCL, 'quoted': QUOTED_EXCL, 'braced': BRACED_EXCL}[o['form']]
     L1 = sym_chars(ctx, 'c', o['nsym'], exclude=excl)
@@ -103,12 +106,13 @@ def doc(ctx, opts):
         for t in k:
             ctx.add(z3.Or(t == 32, t == 9))
         cont = S('\\', k, nl)
-    r1 = S(trow, ws, '1', ws, l1_text, ws, cont, 'ALPHA', ws, '{abc', ws, 'x}', ws, '{1.5 2.5}', tc)
+    r1 = S(trow, ws, '1', ws, l1_text, ws, cont, 'ALPHA', ws, '{', pad, 'abc', ws, 'x', pad, '}', ws, '{', pad, '1.5 2.5', pad, '}', tc)
     r2 = S(tname.lower(), ' 2 "q r" EPSILON {"" yyyy} {3.0 4.0}')
     s1 = S(oname, ' 5 ', 'w1')
     s2 = S(oname.lower(), ' 6 longer')
     rows = [[r1, r2, s1, s2], [s1, r1, s2, r2], [r1, s1, r2, s2]][o['interleave']]
-    lines = head + enum + st1 + st2 + rows
+    st3 = ['typedef struct {', ' int k;', ' char s%s%s;' % (lb, rb), ' float y%s2%s;' % (lb, rb), '} NOROWS;', ''] if o['zero_rows'] else []
+    lines = head + enum + st1 + st2 + st3 + rows
     text = None
     for ln in lines:
         piece = S(ln, nl)
@@ -119,6 +123,10 @@ def doc(ctx, opts):
         oname.upper(): {'n': [5, 6], 'w': ['w1', 'longer']},
         'order': [tname.upper(), oname.upper()],
     }
+    if o['zero_rows']:
+        # a table that is declared but has no rows is still a table of the document
+        expected['NOROWS'] = {'k': [], 's': [], 'y': []}
+        expected['order'].append('NOROWS')
     return text, expected
 
 
@@ -189,11 +197,13 @@ def obligations(tier, seed):
         ('name-is-a-column-elsewhere2', dict(form='quoted', nsym=1, names=('N', 'OTHER'))),
         ('typedef-case', dict(form='bare', nsym=1, typedef_case=True)),
         ('enum-layout', dict(form='bare', nsym=1, enumlayout='sym', nl='sym')),
+        ('array-padding', dict(form='bare', nsym=1, arrpad='sym', ws='sym')),
+        ('zero-rows', dict(form='quoted', nsym=1, zero_rows=True, arr='sym')),
     ]
     obs = []
     for name, opts in fam:
         obs.append(ob_layout(name, opts, raw=True))
-        if name in ('bare', 'quoted', 'legacy-angle', 'char[]', 'interleave1', 'crlf', 'substring-names3', 'name-is-a-column-elsewhere', 'typedef-case', 'enum-layout') or not q:
+        if name in ('bare', 'quoted', 'legacy-angle', 'char[]', 'array-padding', 'zero-rows', 'interleave1', 'crlf', 'substring-names3', 'name-is-a-column-elsewhere', 'typedef-case', 'enum-layout') or not q:
             obs.append(ob_layout(name, opts, raw=False))
     obs.append(ob_layout('quoted', dict(form='quoted', nsym=1), raw=False, binary=True))
     if not q:
